@@ -217,6 +217,7 @@ fn small_case(maxv: usize, maxa: usize) -> impl Strategy<Value = ValidCase> {
         // keep files small so that every byte offset can be enumerated
         for v in c.video.iter_mut() {
             v.size = v.size % 40 + 1;
+            v.big = 0;
         }
         for a in c.audio.iter_mut() {
             a.size = a.size % 30 + 1;
@@ -245,6 +246,23 @@ fn strat_sampled(_t: Tier) -> BoxedStrategy<FaultCase> {
         .boxed()
 }
 
+fn long_fault_cases(_t: Tier) -> Vec<FaultCase> {
+    // long / large recordings under sampled fault points, transient failures and short-write / Interrupted schedules
+    let scheds: Vec<(Vec<u8>, Option<(u16, u8)>)> = vec![
+        (vec![1], None),
+        (vec![0, 1, 0, 200, 255, 3], None),
+        (vec![255, 255, 0, 0, 7, 100], None),
+        (vec![200; 40], None),
+        (vec![0, 5, 0, 5], Some((40_000, 2))),
+        (vec![1, 1, 1, 255], Some((7, 6))),
+    ];
+    long_cases(false)
+        .into_iter()
+        .filter(|c| c.expand.as_ref().map(|e| e.nv + e.na <= 40_000).unwrap_or(true))
+        .map(|base| FaultCase { base, schedules: scheds.clone(), only: None, exhaustive: false })
+        .collect()
+}
+
 pub fn def() -> PropertyDef {
     PropertyDef {
         fuzz_targets: &[],
@@ -263,6 +281,7 @@ pub fn def() -> PropertyDef {
         subs: vec![
             Box::new(PSub { name: "every_fault_point", quick: 600, thorough: 12000, strat, eval }),
             Box::new(PSub { name: "sampled_fault_points", quick: 1500, thorough: 60000, strat: strat_sampled, eval }),
+            Box::new(LSub { name: "long_recordings", cases: long_fault_cases, eval, note: LONG_NOTE }),
         ],
     }
 }
